@@ -3,6 +3,8 @@ Model/Driver.lean — request dispatcher of the line protocol (pure: `List Strin
 -/
 import RdVerif.Model.Nuclide
 import RdVerif.Model.Entry
+import RdVerif.Model.Interval
+import RdVerif.Gen.Icrp107.Data
 
 namespace RdVerif.Driver
 
@@ -54,6 +56,25 @@ def decEntries : List String → Option (List (Key × AmountKind))
     pure ((k, a) :: rest)
   | _ => none
 
+def decRat (t : String) : Option Rat :=
+  match t.splitOn "/" with
+  | [p] => p.toInt?.map (fun n => (n : Rat))
+  | [p, q] => do let n ← p.toInt?; let d ← q.toNat?; if d == 0 then none else pure (mkRat n d)
+  | _ => none
+
+def encRat (q : Rat) : String := s!"{q.num}/{q.den}"
+
+/-- `idx:amount,idx:amount,…` -/
+def decN0 (t : String) : Option N0 :=
+  if t == "-" then some [] else
+  (t.splitOn ",").mapM (fun item => match item.splitOn ":" with
+    | [i, a] => do let i ← i.toNat?; let a ← decRat a; pure (i, a)
+    | _ => none)
+
+def dsByName : String → Option Dataset
+  | "icrp107" => some Gen.icrp107
+  | _ => none
+
 def showNames (l : List (List Ch)) : String := " ".intercalate ((l.map encCodes))
 
 def decKey : List String → Option Key
@@ -89,6 +110,38 @@ def handle (st : State) (req : List String) : State × String :=
       | some ks, some c => (st, showPy showNames (remove st.names c (.many ks)))
       | _, _ => (st, "bad-request")
     | none => (st, "bad-request")
+  | ["ln2", P, n] =>
+    match P.toNat?, n.toNat? with
+    | some P, some n => (st, match ln2Encl P n with
+        | some (a, b) => s!"ok {encRat a} {encRat b}"
+        | none => "none")
+    | _, _ => (st, "bad-request")
+  | ["expneg", P, n, k, xlo, xhi] =>
+    match P.toNat?, n.toNat?, k.toNat?, decRat xlo, decRat xhi with
+    | some P, some n, some k, some a, some b =>
+      let r := expNegEncl P n k a b
+      (st, s!"ok {encRat r.1} {encRat r.2}")
+    | _, _, _, _, _ => (st, "bad-request")
+  | ["indices", dsn, v] =>
+    match dsByName dsn, decN0 v with
+    | some ds, some v => (st, "ok " ++ " ".intercalate ((decayIndices ds (v.map (·.1))).map toString))
+    | _, _ => (st, "bad-request")
+  | ["coeffs", dsn, v, i] =>
+    match dsByName dsn, decN0 v, i.toNat? with
+    | some ds, some v, some i =>
+      (st, "ok " ++ " ".intercalate ((coeffs ds v i).map (fun p => s!"{p.1}:{encRat p.2}")))
+    | _, _, _ => (st, "bad-request")
+  | [cmd, dsn, P, n, extra, l2lo, l2hi, t, v] =>
+    if cmd == "decay" || cmd == "cum" then
+      match dsByName dsn, P.toNat?, n.toNat?, extra.toNat?, decRat l2lo, decRat l2hi, decRat t, decN0 v with
+      | some ds, some P, some n, some extra, some a, some b, some t, some v =>
+        let cfg : EvalCfg := { P := P, n := n, extra := extra, ln2 := (a, b) }
+        let idx := decayIndices ds (v.map (·.1))
+        let idx := if cmd == "cum" then idx.filter (fun i => get2 ds.rate i 0 != 0) else idx
+        let f := if cmd == "cum" then cumEncl ds cfg v t else solEncl ds cfg v t
+        (st, "ok " ++ " ".intercalate (idx.map (fun i => let r := f i; s!"{i}:{encRat r.1}:{encRat r.2}")))
+      | _, _, _, _, _, _, _, _ => (st, "bad-request")
+    else (st, "bad-request")
   | "parse_nuc" :: k =>
     match decKey k with
     | some key => (st, showPy encCodes (parseNuclide key st.names))
